@@ -454,3 +454,274 @@ pub proof fn thm_transcript_agreement<CS: CipherSuite>(st: ClientLogin<CS>, pw: 
     lemma_preamble_injective(ctx_of(p.context), idu_c, creq, ids_c, l2c, resp.ke2_message.server_nonce@, <CS::KeGroup as KeGroup>::ser_pk(resp.ke2_message.server_e_pk.0),
         ctx, idu, ke1, ids, l2, ns, epk);
 }
+
+// ------------------------------------------------------------------------------------------------ C04
+/// C04 (MAC field): a response that differs from an accepted one ONLY in the server MAC is rejected — exact, no idealisation
+pub proof fn thm_c04_mac_only<CS: CipherSuite>(st: ClientLogin<CS>, pw: Seq<u8>, r0: CredentialResponse<CS>, r1: CredentialResponse<CS>, p: ClientLoginFinishParameters<CS>)
+    requires
+        cl_accepts::<CS>(st, pw, r0, p),
+        r1.evaluation_element == r0.evaluation_element, r1.masking_nonce == r0.masking_nonce, r1.masked_response == r0.masked_response,
+        r1.ke2_message.server_nonce == r0.ke2_message.server_nonce, r1.ke2_message.server_e_pk == r0.ke2_message.server_e_pk,
+        r1.ke2_message.mac@ != r0.ke2_message.mac@,
+    ensures !cl_mac_ok::<CS>(st, pw, r1, p), !cl_accepts::<CS>(st, pw, r1, p),
+        //@vacuity
+{
+    assert(cl_prk::<CS>(st, pw, r1, p) == cl_prk::<CS>(st, pw, r0, p));
+    assert(cl_preamble::<CS>(st, pw, r1, p) == cl_preamble::<CS>(st, pw, r0, p));
+}
+/// C04 (every other field): if the client accepts a response carrying the MAC the server computed for its own response `r0` to this
+/// client's request, then every transcript field of the accepted response equals r0's: the OPRF evaluation, the masking nonce, the masked
+/// credentials, the server nonce and the server ephemeral key (given collision-freedom of HMAC and Hash).  Contrapositive: any altered byte
+/// in one of those fields, with the MAC left as it was, is rejected; so is a response made for another request.
+pub proof fn thm_c04_fields<CS: CipherSuite>(st: ClientLogin<CS>, pw: Seq<u8>, r1: CredentialResponse<CS>, p: ClientLoginFinishParameters<CS>,
+        prk_s: Seq<u8>, ctx_s: Seq<u8>, idu_s: Seq<u8>, ke1_s: Seq<u8>, ids_s: Seq<u8>, r0: CredentialResponse<CS>)
+    requires
+        cf_hash::<OprfHash<CS>>(), cf_hmac::<OprfHash<CS>>(),
+        cl_mac_ok::<CS>(st, pw, r1, p), ids_fit(p.identifiers),
+        // the MAC is the one the server computed over ITS view: its context/identities, the request it received (ke1_s) and its response r0
+        r1.ke2_message.mac@ == rfc_server_mac::<OprfHash<CS>>(prk_s, rfc_preamble(ctx_s, idu_s, ke1_s, ids_s,
+            <OprfGroup<CS> as Group>::ser_elem(r0.evaluation_element.v()) + r0.masking_nonce@ + masked_ser(r0.masked_response),
+            r0.ke2_message.server_nonce@, <CS::KeGroup as KeGroup>::ser_pk(r0.ke2_message.server_e_pk.0))),
+        ctx_s.len() <= 65535, idu_s.len() <= 65535, ids_s.len() <= 65535, ke1_s.len() == noe::<CS>() + 32 + npk::<CS>(),
+    ensures
+        <OprfGroup<CS> as Group>::ser_elem(r1.evaluation_element.v()) == <OprfGroup<CS> as Group>::ser_elem(r0.evaluation_element.v()),
+        r1.masking_nonce@ == r0.masking_nonce@,
+        masked_ser(r1.masked_response) == masked_ser(r0.masked_response),
+        r1.ke2_message.server_nonce@ == r0.ke2_message.server_nonce@,
+        <CS::KeGroup as KeGroup>::ser_pk(r1.ke2_message.server_e_pk.0) == <CS::KeGroup as KeGroup>::ser_pk(r0.ke2_message.server_e_pk.0),
+        // ... and it was made for THIS client's request
+        <OprfGroup<CS> as Group>::ser_elem(st.credential_request.blinded_element.v()) + st.credential_request.ke1_message.client_nonce@
+            + <CS::KeGroup as KeGroup>::ser_pk(st.credential_request.ke1_message.client_e_pk.0) == ke1_s,
+        //@vacuity
+{
+    broadcast use ga_axioms;
+    lemma_lens::<CS>();
+    let l2_0 = <OprfGroup<CS> as Group>::ser_elem(r0.evaluation_element.v()) + r0.masking_nonce@ + masked_ser(r0.masked_response);
+    let l2_1 = <OprfGroup<CS> as Group>::ser_elem(r1.evaluation_element.v()) + r1.masking_nonce@ + masked_ser(r1.masked_response);
+    <OprfGroup<CS> as Group>::lemma_ser_elem_len(r0.evaluation_element.v());
+    <OprfGroup<CS> as Group>::lemma_ser_elem_len(r1.evaluation_element.v());
+    thm_transcript_agreement::<CS>(st, pw, r1, p, prk_s, ctx_s, idu_s, ke1_s, ids_s, l2_0, r0.ke2_message.server_nonce@, <CS::KeGroup as KeGroup>::ser_pk(r0.ke2_message.server_e_pk.0));
+    assert(l2_1 == l2_0);
+    // split l2 into its three fixed-length fields
+    assert(l2_1 =~= <OprfGroup<CS> as Group>::ser_elem(r1.evaluation_element.v()) + (r1.masking_nonce@ + masked_ser(r1.masked_response)));
+    assert(l2_0 =~= <OprfGroup<CS> as Group>::ser_elem(r0.evaluation_element.v()) + (r0.masking_nonce@ + masked_ser(r0.masked_response)));
+    lemma_fixed_split(<OprfGroup<CS> as Group>::ser_elem(r1.evaluation_element.v()), r1.masking_nonce@ + masked_ser(r1.masked_response),
+        <OprfGroup<CS> as Group>::ser_elem(r0.evaluation_element.v()), r0.masking_nonce@ + masked_ser(r0.masked_response));
+    lemma_fixed_split(r1.masking_nonce@, masked_ser(r1.masked_response), r0.masking_nonce@, masked_ser(r0.masked_response));
+}
+
+// ------------------------------------------------------------------------------------------------ C05
+/// C05 (login-time agreement): if the client accepts a response whose MAC the server computed under context `ctx_s` and effective
+/// identities (idu_s, ids_s), then the client's context and effective identities are byte-identical to the server's.  Because the
+/// preamble is injective (lemma_preamble_injective, proved), moving bytes between context / client identity / server identity or changing
+/// a length across 255/256 or 65535 never turns a mismatch into a match.
+pub proof fn thm_c05_login_binding<CS: CipherSuite>(st: ClientLogin<CS>, pw: Seq<u8>, resp: CredentialResponse<CS>, p: ClientLoginFinishParameters<CS>,
+        prk_s: Seq<u8>, ctx_s: Seq<u8>, idu_s: Seq<u8>, ke1_s: Seq<u8>, ids_s: Seq<u8>)
+    requires
+        cf_hash::<OprfHash<CS>>(), cf_hmac::<OprfHash<CS>>(),
+        cl_mac_ok::<CS>(st, pw, resp, p), ids_fit(p.identifiers),
+        resp.ke2_message.mac@ == rfc_server_mac::<OprfHash<CS>>(prk_s, rfc_preamble(ctx_s, idu_s, ke1_s, ids_s,
+            <OprfGroup<CS> as Group>::ser_elem(resp.evaluation_element.v()) + resp.masking_nonce@ + masked_ser(resp.masked_response),
+            resp.ke2_message.server_nonce@, <CS::KeGroup as KeGroup>::ser_pk(resp.ke2_message.server_e_pk.0))),
+        ctx_s.len() <= 65535, idu_s.len() <= 65535, ids_s.len() <= 65535, ke1_s.len() == noe::<CS>() + 32 + npk::<CS>(),
+    ensures
+        ctx_of(p.context) == ctx_s,
+        eff_id(p.identifiers.client, <CS::KeGroup as KeGroup>::ser_pk(<CS::KeGroup as KeGroup>::pk_of(cl_client_sk::<CS>(st, pw, resp, p)))) == idu_s,
+        eff_id(p.identifiers.server, <CS::KeGroup as KeGroup>::ser_pk(cl_server_pk::<CS>(st, pw, resp, p)->0)) == ids_s,
+        //@vacuity
+{
+    broadcast use ga_axioms;
+    lemma_lens::<CS>();
+    <OprfGroup<CS> as Group>::lemma_ser_elem_len(resp.evaluation_element.v());
+    thm_transcript_agreement::<CS>(st, pw, resp, p, prk_s, ctx_s, idu_s, ke1_s, ids_s,
+        <OprfGroup<CS> as Group>::ser_elem(resp.evaluation_element.v()) + resp.masking_nonce@ + masked_ser(resp.masked_response),
+        resp.ke2_message.server_nonce@, <CS::KeGroup as KeGroup>::ser_pk(resp.ke2_message.server_e_pk.0));
+}
+/// C05 (registration-time sealing) and C06: if the client passes the envelope gate on the honestly masked record of a registration made
+/// with (rp, spk_reg, ids_reg) — same randomized password — then the server key it unmasked and its effective identities are the sealed ones.
+pub proof fn thm_c05_envelope_binding<CS: CipherSuite>(st: ClientLogin<CS>, pw: Seq<u8>, resp: CredentialResponse<CS>, p: ClientLoginFinishParameters<CS>,
+        rec: RegistrationUpload<CS>, spk_reg: Seq<u8>, ids_reg: Identifiers, spk_live: Seq<u8>)
+    requires
+        cf_hmac::<OprfHash<CS>>(),
+        registered::<CS>(rec, cl_rp::<CS>(st, pw, resp, p), spk_reg, ids_reg), ids_fit(ids_reg),
+        masked_by::<CS>(resp, rec, spk_live), spk_live.len() == npk::<CS>(), spk_reg.len() == npk::<CS>(),
+        cl_env_ok::<CS>(st, pw, resp, p),
+    ensures
+        // C06: the key the server masked (and the client will report) is the key sealed at registration
+        <CS::KeGroup as KeGroup>::ser_pk(cl_server_pk::<CS>(st, pw, resp, p)->0) == spk_reg,
+        spk_live == spk_reg,
+        // C05: the effective identities at login equal the sealed ones
+        eff_id(p.identifiers.server, spk_reg) == eff_id(ids_reg.server, spk_reg),
+        ({ let cpk = <CS::KeGroup as KeGroup>::ser_pk(rec.client_s_pk.0); eff_id(p.identifiers.client, cpk) == eff_id(ids_reg.client, cpk) }),
+        //@vacuity
+{
+    broadcast use ga_axioms;
+    lemma_lens::<CS>();
+    let rp = cl_rp::<CS>(st, pw, resp, p);
+    let mk = rfc_masking_key::<CS>(rp);
+    let nonce = rec.envelope.nonce@;
+    let tag = rec.envelope.hmac@;
+    lemma_unmask::<CS>(mk, resp.masking_nonce@, resp.masked_response, spk_live, nonce, tag);
+    let pk_dec = cl_server_pk::<CS>(st, pw, resp, p)->0;
+    <CS::KeGroup as KeGroup>::lemma_de_pk_canonical(spk_live);
+    let csk = rfc_client_sk::<CS>(rp, nonce)->Ok_0;
+    let cpk = <CS::KeGroup as KeGroup>::ser_pk(<CS::KeGroup as KeGroup>::pk_of(csk));
+    <CS::KeGroup as KeGroup>::lemma_ser_pk_len(<CS::KeGroup as KeGroup>::pk_of(csk));
+    // the tag verified by the client == the tag sealed at registration; HMAC collision-freedom gives equal MAC inputs
+    let ct_login = rfc_cleartext_credentials(spk_live, eff_id(p.identifiers.server, spk_live), eff_id(p.identifiers.client, cpk));
+    let ct_reg = rfc_cleartext_credentials(spk_reg, eff_id(ids_reg.server, spk_reg), eff_id(ids_reg.client, cpk));
+    assert(nonce + ct_login == nonce + ct_reg);
+    lemma_fixed_split(nonce, ct_login, nonce, ct_reg);
+    lemma_cleartext_injective(spk_live, eff_id(p.identifiers.server, spk_live), eff_id(p.identifiers.client, cpk),
+        spk_reg, eff_id(ids_reg.server, spk_reg), eff_id(ids_reg.client, cpk));
+}
+
+// ------------------------------------------------------------------------------------------------ C07
+/// the MAC key Km2 determines the key-schedule input (given collision-freedom of Expand)
+pub proof fn lemma_km2_injective<D: Hash>(prk1: Seq<u8>, prk2: Seq<u8>, th: Seq<u8>)
+    requires cf_expand::<D>(), D::OutputSize::n() >= 32, rfc_km2::<D>(prk1, th) == rfc_km2::<D>(prk2, th)
+    ensures prk1 == prk2
+{
+    // Km2 = Expand(handshake_secret, ..); handshake_secret = Expand(prk, ..)
+    assert(rfc_handshake_secret::<D>(prk1, th) == rfc_handshake_secret::<D>(prk2, th));
+}
+/// C07 (client side): if a client session accepts a response whose MAC a server session computed over ITS transcript, the two are one
+/// matched conversation: the server session answered THIS client's request, context and identities agree, the response fields are the ones
+/// that server session produced, and both sides derive the same session key.
+pub proof fn thm_c07_client_matched<CS: CipherSuite>(st: ClientLogin<CS>, pw: Seq<u8>, resp: CredentialResponse<CS>, p: ClientLoginFinishParameters<CS>,
+        prk_s: Seq<u8>, ctx: Seq<u8>, idu: Seq<u8>, ke1: Seq<u8>, ids: Seq<u8>, l2: Seq<u8>, ns: Seq<u8>, epk: Seq<u8>)
+    requires
+        cf_hash::<OprfHash<CS>>(), cf_hmac::<OprfHash<CS>>(), cf_expand::<OprfHash<CS>>(),
+        cl_mac_ok::<CS>(st, pw, resp, p), ids_fit(p.identifiers),
+        resp.ke2_message.mac@ == rfc_server_mac::<OprfHash<CS>>(prk_s, rfc_preamble(ctx, idu, ke1, ids, l2, ns, epk)),
+        ctx.len() <= 65535, idu.len() <= 65535, ids.len() <= 65535,
+        ke1.len() == noe::<CS>() + 32 + npk::<CS>(), l2.len() == noe::<CS>() + 32 + (32 + nh::<CS>() + npk::<CS>()), ns.len() == 32,
+    ensures
+        // the server session's request is this client's request
+        <OprfGroup<CS> as Group>::ser_elem(st.credential_request.blinded_element.v()) + st.credential_request.ke1_message.client_nonce@
+            + <CS::KeGroup as KeGroup>::ser_pk(st.credential_request.ke1_message.client_e_pk.0) == ke1,
+        cl_preamble::<CS>(st, pw, resp, p) == rfc_preamble(ctx, idu, ke1, ids, l2, ns, epk),
+        // keys agree within the session
+        cl_prk::<CS>(st, pw, resp, p) == prk_s,
+        rfc_session_key::<OprfHash<CS>>(cl_prk::<CS>(st, pw, resp, p), <OprfHash<CS> as Digest>::h(cl_preamble::<CS>(st, pw, resp, p)))
+            == rfc_session_key::<OprfHash<CS>>(prk_s, <OprfHash<CS> as Digest>::h(rfc_preamble(ctx, idu, ke1, ids, l2, ns, epk))),
+        //@vacuity
+{
+    lemma_lens::<CS>();
+    thm_transcript_agreement::<CS>(st, pw, resp, p, prk_s, ctx, idu, ke1, ids, l2, ns, epk);
+    lemma_km2_injective::<OprfHash<CS>>(cl_prk::<CS>(st, pw, resp, p), prk_s, <OprfHash<CS> as Digest>::h(cl_preamble::<CS>(st, pw, resp, p)));
+}
+/// C07 (server side): the tag a pending server state expects is HMAC(Km3, Hash(preamble_s || server_mac_s)).  If a finalization produced by a
+/// client session (= rfc_client_mac over the client's transcript) is accepted, then the client's transcript and the server MAC it verified are
+/// exactly the server session's: the finalization comes from the client run that accepted this very response.
+pub proof fn thm_c07_server_matched<D: Hash>(prk_s: Seq<u8>, pre_s: Seq<u8>, prk_c: Seq<u8>, pre_c: Seq<u8>)
+    requires
+        cf_hash::<D>(), cf_hmac::<D>(),
+        // accepted: the client's finalization equals the tag the server state expects
+        rfc_client_mac::<D>(prk_c, pre_c) == D::hmac(rfc_km3::<D>(prk_s, D::h(pre_s)), D::h(pre_s + rfc_server_mac::<D>(prk_s, pre_s))),
+    ensures
+        pre_c == pre_s,
+        rfc_server_mac::<D>(prk_c, pre_c) == rfc_server_mac::<D>(prk_s, pre_s),
+        //@vacuity
+{
+    let mc = rfc_server_mac::<D>(prk_c, pre_c);
+    let ms = rfc_server_mac::<D>(prk_s, pre_s);
+    D::lemma_hmac_len(rfc_km2::<D>(prk_c, D::h(pre_c)), D::h(pre_c));
+    D::lemma_hmac_len(rfc_km2::<D>(prk_s, D::h(pre_s)), D::h(pre_s));
+    assert(D::h(pre_c + mc) == D::h(pre_s + ms));
+    assert(pre_c + mc == pre_s + ms);
+    // both MACs have length Nh: split from the right
+    assert(pre_c =~= (pre_c + mc).subrange(0, (pre_c + mc).len() - D::OutputSize::n()));
+    assert(pre_s =~= (pre_s + ms).subrange(0, (pre_s + ms).len() - D::OutputSize::n()));
+    assert(mc =~= (pre_c + mc).subrange((pre_c + mc).len() - D::OutputSize::n(), (pre_c + mc).len() as int));
+    assert(ms =~= (pre_s + ms).subrange((pre_s + ms).len() - D::OutputSize::n(), (pre_s + ms).len() as int));
+}
+/// C07 (distinct sessions): two sessions whose server nonces or server ephemeral keys differ have different transcripts, hence different
+/// transcript hashes and different session keys (given collision-freedom of Hash and Expand).  Freshness of those values per session is
+/// the `.tape` part of ServerLogin::start / generate_ke2 (disjoint tape segments).
+pub proof fn thm_c07_distinct_sessions<D: Hash>(prk1: Seq<u8>, prk2: Seq<u8>,
+        c1: Seq<u8>, u1: Seq<u8>, k1: Seq<u8>, s1: Seq<u8>, l1: Seq<u8>, n1: Seq<u8>, e1: Seq<u8>,
+        c2: Seq<u8>, u2: Seq<u8>, k2: Seq<u8>, s2: Seq<u8>, l2: Seq<u8>, n2: Seq<u8>, e2: Seq<u8>)
+    requires
+        cf_hash::<D>(), cf_expand::<D>(), D::OutputSize::n() >= 32,
+        c1.len() <= 65535, c2.len() <= 65535, u1.len() <= 65535, u2.len() <= 65535, s1.len() <= 65535, s2.len() <= 65535,
+        k1.len() == k2.len(), l1.len() == l2.len(), n1.len() == n2.len(),
+        n1 != n2 || e1 != e2 || k1 != k2,
+    ensures
+        rfc_session_key::<D>(prk1, D::h(rfc_preamble(c1, u1, k1, s1, l1, n1, e1))) != rfc_session_key::<D>(prk2, D::h(rfc_preamble(c2, u2, k2, s2, l2, n2, e2))),
+        //@vacuity
+{
+    let p1 = rfc_preamble(c1, u1, k1, s1, l1, n1, e1);
+    let p2 = rfc_preamble(c2, u2, k2, s2, l2, n2, e2);
+    if p1 == p2 { lemma_preamble_injective(c1, u1, k1, s1, l1, n1, e1, c2, u2, k2, s2, l2, n2, e2); }
+    let (t1, t2) = (D::h(p1), D::h(p2));
+    assert(t1 != t2);
+    D::lemma_h_len(p1); D::lemma_h_len(p2);
+    let a1 = i2osp(D::OutputSize::n(), 2) + i2osp((s_opaque() + s_session_key()).len(), 1) + s_opaque() + s_session_key() + i2osp(t1.len(), 1);
+    let a2 = i2osp(D::OutputSize::n(), 2) + i2osp((s_opaque() + s_session_key()).len(), 1) + s_opaque() + s_session_key() + i2osp(t2.len(), 1);
+    assert(a1 == a2);
+    if a1 + t1 == a2 + t2 { lemma_fixed_split(a1, t1, a2, t2); }
+    assert(rfc_custom_label(D::OutputSize::n(), s_session_key(), t1) == a1 + t1);
+    assert(rfc_custom_label(D::OutputSize::n(), s_session_key(), t2) == a2 + t2);
+}
+
+// ------------------------------------------------------------------------------------------------ C14 / C15 / C16
+/// C14: what the client derives is independent of the blind — two registrations (or logins) of the same password against the same
+/// per-credential OPRF key give the same randomized password (hence the same masking key), whatever the two blinds are
+pub proof fn thm_c14_blind_independent<CS: CipherSuite>(pw: Seq<u8>, b1: <OprfGroup<CS> as Group>::Scalar, b2: <OprfGroup<CS> as Group>::Scalar,
+        k: <OprfGroup<CS> as Group>::Scalar, ksf: Option<&CS::Ksf>)
+    requires <OprfGroup<CS> as Group>::scalar_nonzero(b1), <OprfGroup<CS> as Group>::scalar_nonzero(b2), voprf::h2g::<CS::OprfCs>(pw) is Some,
+    ensures ({
+        let p = voprf::h2g::<CS::OprfCs>(pw)->0;
+        let z1 = <OprfGroup<CS> as Group>::smul(<OprfGroup<CS> as Group>::smul(p, b1), k);
+        let z2 = <OprfGroup<CS> as Group>::smul(<OprfGroup<CS> as Group>::smul(p, b2), k);
+        rp_of::<CS>(pw, b1, z1, ksf) == rp_of::<CS>(pw, b2, z2, ksf)
+            && (rp_of::<CS>(pw, b1, z1, ksf) is Ok ==> rfc_masking_key::<CS>(rp_of::<CS>(pw, b1, z1, ksf)->Ok_0) == rfc_masking_key::<CS>(rp_of::<CS>(pw, b2, z2, ksf)->Ok_0))
+    }),
+        //@vacuity
+{
+    lemma_oprf_output_blind_independent::<CS>(pw, b1, k);
+    lemma_oprf_output_blind_independent::<CS>(pw, b2, k);
+}
+/// C14: the request itself depends on the blind: with the same password, different blinds give different blinded elements unless the
+/// group action collapses them (a*P == b*P); stated as: equal requests imply equal unblinded points times blind
+pub proof fn thm_c14_request_varies<G: Group>(p: G::Elem, b1: G::Scalar, b2: G::Scalar)
+    requires G::scalar_nonzero(b1), G::smul(p, b1) == G::smul(p, b2)
+    ensures G::smul(G::smul(p, b2), G::inv(b1)) == p
+{
+    G::lemma_smul_inv(p, b1);
+}
+/// C15: passing the suite's default KSF instance explicitly is the same as passing none
+pub proof fn thm_c15_default_equiv<CS: CipherSuite>(pw: Seq<u8>, b: <OprfGroup<CS> as Group>::Scalar, z: <OprfGroup<CS> as Group>::Elem, k: &CS::Ksf)
+    requires *k == ksf_default_spec::<CS::Ksf>()
+    ensures rp_of::<CS>(pw, b, z, Some(k)) == rp_of::<CS>(pw, b, z, None),
+        //@vacuity
+{}
+/// C15: different stretching results give different randomized passwords (given collision-freedom of Extract)
+pub proof fn thm_c15_ksf_bound<CS: CipherSuite>(y: Seq<u8>, st1: Seq<u8>, st2: Seq<u8>)
+    requires cf_extract::<OprfHash<CS>>(), st1 != st2
+    ensures rfc_randomized_pwd::<CS>(y, st1) != rfc_randomized_pwd::<CS>(y, st2),
+        //@vacuity
+{
+    if y + st1 == y + st2 { lemma_fixed_split(y, st1, y, st2); }
+}
+/// C16: a new registration (fresh envelope nonce) has a different export key, and so has a different randomized password
+/// (given collision-freedom of Expand)
+pub proof fn thm_c16_separated<CS: CipherSuite>(rp1: Seq<u8>, n1: Seq<u8>, rp2: Seq<u8>, n2: Seq<u8>)
+    requires cf_expand::<OprfHash<CS>>(), n1.len() == n2.len(), rp1 != rp2 || n1 != n2
+    ensures rfc_export_key::<CS>(rp1, n1) != rfc_export_key::<CS>(rp2, n2),
+        //@vacuity
+{
+    lemma_lens::<CS>();
+    if n1 + s_export_key() == n2 + s_export_key() { lemma_fixed_split(n1, s_export_key(), n2, s_export_key()); }
+}
+/// C16: the export key and the auth key / client-key seed / masking key are separated by their labels
+pub proof fn thm_c16_label_separation<CS: CipherSuite>(rp: Seq<u8>, n: Seq<u8>)
+    requires cf_expand::<OprfHash<CS>>(), n.len() == 32
+    ensures rfc_export_key::<CS>(rp, n) != rfc_auth_key::<CS>(rp, n), rfc_export_key::<CS>(rp, n) != rfc_masking_key::<CS>(rp),
+        //@vacuity
+{
+    lemma_lens::<CS>();
+    assert((n + s_export_key()).len() != (n + s_auth_key()).len());
+    assert((n + s_export_key()).len() != s_masking_key().len());
+}
